@@ -22,7 +22,7 @@ def _log(kind, **kw):
 
 
 def _site():
-    for fr in reversed(traceback.extract_stack()[:-3]):
+    for fr in reversed(traceback.extract_stack()[:-2]):
         fn = fr.filename
         if "/toasty/" in fn and not fn.endswith("image.py"):
             return "%s:%s" % (os.path.basename(fn), fr.name)
